@@ -1378,7 +1378,7 @@ func runHistory(run *sim.Run, caseID int) {
 }
 
 func main() {
-	run := sim.NewRun("C06", "differential")
+	run := sim.NewRun("C06", "exploration")
 	run.SetRule("pure case = one generated vector (0..40 validator price infos: status, power, price, timestamp; quorum) on which the real " +
 		"MedianValidatorPriceInfos and Keeper.CalculatePrice are compared with an exact-rational reference written from x/feeds/README.md, " +
 		"plus the [min,max] range monitor; weighted case = one small-integer vector for MedianWeightedPrice; chain case = one generated history " +
